@@ -79,7 +79,7 @@ func c05(x *ctx) {
 		"order dependences are confirmed by repeated fresh runs of the unmodified binary; non-trivial = the reference output is non-empty"
 	r.Assumptions = []string{"map iteration order, the only schedule-like nondeterminism that reaches the output, is owned at the granularity of range statements (11 sites, found mechanically)",
 		"goroutine/GC schedules cannot influence output (no finalisers, pointer-keyed maps, time or randomness in non-test sources)"}
-	progs := gen.Generated()
+	progs := append(gen.Generated(), gen.DbpPrograms()...)
 	corpus := gen.SortBySize(gen.Corpus(engine.RepoRoot))
 	nCorpus := 120
 	if thorough {
